@@ -1064,7 +1064,7 @@ func (c *Ctx) liveCounter(g *ssa.Function) bool {
 		return false
 	}
 	c.setExtra(key, false) // recursion guard
-	paths, _ := c.Paths(g, PXConfig{Opaque: c.stdOpaque(), MaxVisits: 4, MaxIndex: 3, MaxDepth: 2})
+	paths, _ := c.Paths(g, PXConfig{Opaque: c.stdOpaque(), MaxVisits: 4, MaxIndex: 3, MaxDepth: 4})
 	item := func(k int) string { return fmt.Sprintf("%s[%d]", list, k) }
 	judged, sawTwo := 0, false
 	for _, p := range paths {
@@ -1102,7 +1102,7 @@ func (c *Ctx) liveCounter(g *ssa.Function) bool {
 		}
 		exhausted := F.Has(fmt.Sprintf("lt(%d,len(%s))", n, list), false)
 		if n == 0 {
-			exhausted = exhausted || F.Has("empty("+list+")", true)
+			exhausted = exhausted || F.Has("empty("+list+")", true) || F.Has("eq(nil,recv)", true)
 		}
 		if !exhausted {
 			continue // cut by the iteration bound
@@ -1644,6 +1644,9 @@ func rulePXIsNull(c *Ctx) []Obligation {
 							exhausted = true
 						}
 					}
+				}
+				if n == 0 && F.Has("eq(nil,recv)", true) {
+					exhausted = true // a nil list has no items
 				}
 				if b {
 					t.note("null only if every item is nil or null (all items examined)", allSkipped && exhausted, "path %s returns true after %d items (all nil/null: %v, list exhausted: %v; facts %s)", traceOf(p), n, allSkipped, exhausted, F)
@@ -2700,7 +2703,7 @@ func rulePXEntries(c *Ctx, part string) []Obligation {
 					// success: returns the produced text; failure: panics with the error
 					if p.End == "panic" {
 						pe := p.Events[len(p.Events)-1]
-						isErr := len(pe.Args) == 1 && pe.Args[0].Typ != nil && (isErrorType(pe.Args[0].Typ) || strings.Contains(pe.Args[0].String(), "Errorf") || pe.Args[0].Op == "call" || pe.Args[0].Op == "extract")
+						isErr := len(pe.Args) == 1 && pe.Args[0].Typ != nil && (isErrorType(pe.Args[0].Typ) || strings.Contains(pe.Args[0].String(), "Errorf") || pe.Args[0].Op == "call" || pe.Args[0].Op == "extract" || implementsError(pe.Args[0].Typ))
 						t.note("GoString panics with the render error", isErr, "path %s panics with %v", traceOf(p), pe.Args)
 					} else if len(p.Ret) == 1 {
 						r := p.Ret[0]
@@ -2737,8 +2740,13 @@ func rulePXEntries(c *Ctx, part string) []Obligation {
 					t.note("nothing is written to the caller's writer when rendering or formatting fails", len(writes) == 0, "path %s writes after a failure (facts %s)", traceOf(p), F)
 					// and the failure is returned
 					okRet := false
-					for _, r := range p.Ret {
+					for i, r := range p.Ret {
 						if r.Typ != nil && isErrorType(r.Typ) && !r.Nil {
+							okRet = true
+						}
+						// a value of the module's own error type in an error result (an error that
+						// wraps the cause: Unwrap / Is) is a non-nil error
+						if rs := f.Signature.Results(); i < rs.Len() && isErrorType(rs.At(i).Type()) && (r.Op == "alloc" || r.Op == "struct") {
 							okRet = true
 						}
 					}
@@ -4252,4 +4260,20 @@ func segsByFacts(F Facts, segs []pseg) []pseg {
 		out = append(out, sg)
 	}
 	return out
+}
+
+// implementsError: the (pointer to a) named type of the module has an Error() string method.
+func implementsError(t types.Type) bool {
+	if t == nil {
+		return false
+	}
+	ms := types.NewMethodSet(t)
+	for i := 0; i < ms.Len(); i++ {
+		if m := ms.At(i).Obj(); m.Name() == "Error" {
+			if sig, ok := m.Type().(*types.Signature); ok && sig.Params().Len() == 0 && sig.Results().Len() == 1 {
+				return true
+			}
+		}
+	}
+	return false
 }
